@@ -101,6 +101,7 @@ type Report struct {
 	SolverErrs []string          `json:"solver_errors,omitempty"`
 	Truncated  bool              `json:"truncated,omitempty"`
 	NonTrivial int               `json:"nontrivial_paths"`
+	Cross      []CrossQuery      `json:"-"`
 }
 
 // declaredLabels scans the harness (and harness-file helpers) for assertion labels.
@@ -193,6 +194,9 @@ func (w *World) Explore(spec HarnessSpec) (*Report, error) {
 			sol, err := NewSolver(spec.Solver, cfg.QueryTimeout)
 			if err == nil {
 				sol.IntMode = cfg.IntMode
+				if cfg.CrossCheck {
+					sol.KeepTrace = true
+				}
 			}
 			if err != nil {
 				mu.Lock()
@@ -252,6 +256,9 @@ func (w *World) Explore(spec HarnessSpec) (*Report, error) {
 				}
 				for k, v := range out.Asserts {
 					rep.Asserts[k] += v
+				}
+				if len(rep.Cross) < 12 {
+					rep.Cross = append(rep.Cross, out.Cross...)
 				}
 				for k, v := range out.Funcs {
 					funcs[k] += v
